@@ -20,7 +20,8 @@ LEVEL_TEXT = (
     "universe, on target leaves of <= 5 rows (duplicates included); the existing operation may also be a user-defined "
     "Reordering / RowFilter subclass (the two documented extension points: a stable sort, a value filter, an order- and "
     "count-dependent position filter, a count-dependent threshold filter), which commute() only knows by its flags; the "
-    "fixed join operand may be a tree (deduplication then projection).  Every reported commutation is decoded and evaluated: first then second (then the original "
+    "fixed join operand may be a tree (deduplication then projection), and so may the target of the existing operation "
+    "(a deduplication, selection, sort or slice over the leaf).  Every reported commutation is decoded and evaluated: first then second (then the original "
     "again if partial) must give the rows of existing-then-new in the same order, and both reported operations must be "
     "well-formed where they would be applied; a refusal must hand back the existing operation."
 )
